@@ -21,6 +21,7 @@ structure Pend where
   tag : String
   due : Int            -- virtual time (relative to T0)
   handle : Int
+  fp : Bool            -- scheduled with a function pointer
   deriving Repr, DecidableEq
 
 /-- what the oracle can object to -/
@@ -93,14 +94,14 @@ def judgeStep (s : JState) (ev : Ev) : JState :=
     let missed := s.pend.filter (fun e => e.due ≤ t && !isDeadJ s e.owner)
     let s := missed.foldl (fun s e => s.flag (.notFired e.owner e.tag e.due t)) s
     { s with inTick := false, pend := s.pend.filter (fun e => e.due > t) }
-  | .co t o f d tag h =>
+  | .co t o f d tag h fp =>
     if isDeadJ s o then
       if h == 0 then { s with handles := ((o, tag), 0) :: s.handles } else s.flag (.scheduledByDestructed ev)
     else if h == 0 then s.flag (.callOutRefused ev)
     else
       let s := if s.allHandles.contains h then s.flag (.handleReused ev) else s
       let due := t + (if d < 1 then 1 else d)
-      { s with pend := { owner := o, fn := f, tag := tag, due := due, handle := h } :: s.pend,
+      { s with pend := { owner := o, fn := f, tag := tag, due := due, handle := h, fp := fp } :: s.pend,
                handles := ((o, tag), h) :: s.handles, allHandles := h :: s.allHandles }
   | .fire t o f tag =>
     let s := if s.inTick then s else s.flag (.fireOutsideTick ev)
@@ -126,17 +127,17 @@ def judgeStep (s : JState) (ev : Ev) : JState :=
     | some e => if answerOk s e t r then s else s.flag (.findHandleAnswer o tag r (e.due - t))
     | none => if r == -1 then s else s.flag (.findHandleNothingPending o tag r)
   | .rmn t o f r =>
-    let cands := s.pend.filter (fun e => e.owner == o && e.fn == f)
+    let cands := s.pend.filter (fun e => !e.fp && e.owner == o && e.fn == f)
     if cands.isEmpty then
       if r == -1 then s else s.flag (.removeNameNothingPending o f r)
     else
-      match removeOne (fun e => e.owner == o && e.fn == f && e.due - t == r) s.pend with
+      match removeOne (fun e => !e.fp && e.owner == o && e.fn == f && e.due - t == r) s.pend with
       | some x => { s with pend := x.2 }
       | none =>
         if r == -1 && cands.all (fun e => isDeadJ s e.owner && e.due ≤ t) then s
         else s.flag (.removeNameAnswer o f r (cands.map (fun e => e.due - t)))
   | .fnm t o f r =>
-    let cands := s.pend.filter (fun e => e.owner == o && e.fn == f)
+    let cands := s.pend.filter (fun e => !e.fp && e.owner == o && e.fn == f)
     if cands.isEmpty then
       if r == -1 then s else s.flag (.findNameNothingPending o f r)
     else if cands.any (fun e => answerOk s e t r) then s
@@ -146,13 +147,14 @@ def judgeStep (s : JState) (ev : Ev) : JState :=
   | .dest _ _ x =>
     if isDeadJ s x then s else { s with dead := x :: s.dead }
   | .info t rows =>
-    let want := (s.pend.filter (fun e => !isDeadJ s e.owner)).map (fun e => (e.owner, e.fn, e.due - t))
+    let want := (s.pend.filter (fun e => !isDeadJ s e.owner)).map (fun e => (e.owner, fnCode e.fp e.fn, e.due - t))
     -- multiset equality
     let missing := want.filter (fun x => want.count x > rows.count x)
     let extra := rows.filter (fun x => rows.count x > want.count x)
     if missing.isEmpty && extra.isEmpty then s
     else s.flag (.infoMismatch missing extra)
   | .err _ => s
+  | .errFpDead => s
   | .opErr _ => s
   | .opDestructed _ => s
   | .setScriptDestructed _ => s
